@@ -262,6 +262,25 @@ CLAIMED["C17"] = (
     "aggregates are not guarded (sound, recorded).",
     "DESIGN §5 C17")
 
+CLAIMED["C01"] = (
+    "the unsafe-block preconditions (in-bounds / offset-fits-isize, UTF-8 cut on boundaries, scalar value before "
+    "from_u32_unchecked, all slots initialised before assume_init, slot owned before every read or drop, nul scan "
+    "inside the CStr) are TLC invariants of the implementation-shaped TLA+ models; the behaviours TLC explored are "
+    "replayed on the real code natively with memory/UTF-8/drop monitors, under Miri, and as const items through "
+    "rustc's const evaluator",
+    "Design level: 15 models (slice/str indexing with every index of an 8-bit word, search, trim, split, chars, slice "
+    "iterators, ranges, Parser, comparison, integer parsing, CStr, ownership ledger, array building, concatenation) "
+    "checked exhaustively within small bounds with their unsafe preconditions as invariants. Code level: 169k "
+    "behaviours replayed natively (every returned slice/str must be a window of its argument, valid UTF-8 on char "
+    "boundaries, every value dropped exactly once), a seeded stratified sample of 1.5k behaviours / 11k calls "
+    "(thorough: 18k behaviours) interpreted by Miri without undefined behaviour, and 2k (thorough 10k) vectors "
+    "evaluated inside const items.",
+    "Trusted: Miri's and the const evaluator's model of undefined behaviour; TLC. UB freedom is established for "
+    "the replayed behaviours and for the bounded models, not for inputs outside every bound; unsafe fns of "
+    "konst::{ptr, maybe_uninit, manually_drop} are outside the property's scope. Macro forms wrapping unsafe "
+    "blocks are exercised in const context by C11 / C15 / C20's programs.",
+    "DESIGN §5 C01")
+
 NOT_YET = {}
 
 def main():
